@@ -133,8 +133,10 @@ Definition kind_evk (datagram : list byte) (kind : N) : evk :=
   else if kind =? K_CLOSED then EAgentClosed
   else EStopped.
 
-(* Client.Start(msg, handler); handler = None is Indicate *)
-Definition c_start (c : client) (id : N) (raw : list byte) (h : option N) : client * list obs :=
+(* Client.Start(msg, handler); handler = None is Indicate.  [fixStart]: the "fix: Start forgets the
+   transaction when the agent refuses it" commit; false = the pinned tree, where the entry stayed in
+   Client.t although Start returned the agent's error *)
+Definition c_start_gen (fixStart : bool) (c : client) (id : N) (raw : list byte) (h : option N) : client * list obs :=
   if c_closed c then (c, [ORet CClientClosed]) else
   match h with
   | None =>
@@ -155,9 +157,11 @@ Definition c_start (c : client) (id : N) (raw : list byte) (h : option N) : clie
         let c4 := upd_T c3 (T_remove id (c_T c3)) in
         let '(c5, sr) := agent_stop c4 id in
         (c5, [ORet (match sr with ROk => CWriteErr | _ => CStopErr end)])
-    | (_, (r, _)) => (c1, [ORet (CAgentErr r)])      (* the entry stays in Client.t: transcribed as is *)
+    | (_, (r, _)) => (if fixStart then c0 else c1, [ORet (CAgentErr r)])
     end
   end.
+Definition c_start := c_start_gen true.
+Definition c_start_pinned := c_start_gen false.
 
 (* the reader goroutine gets one datagram: ReadFrom into a 1024-byte buffer, Decode, Process *)
 Definition c_deliver (fixClose fixBuf : bool) (c : client) (datagram : list byte) (tid_of : list byte -> N)
@@ -186,19 +190,57 @@ Definition c_set_now (c : client) (now : Z) : client :=
 Definition c_fail_next (c : client) (script : list N) : client :=
   mkClient (c_closed c) (c_T c) (c_rto c) (c_maxA c) (c_closeConn c) (c_fb c) (c_A c) (c_now c) script (c_connClosed c) (c_next_inst c).
 
-(* Client.Close *)
-Definition c_close (fixClose fixBuf : bool) (c : client) : client * list obs :=
-  if c_closed c then (c, [ORet CClientClosed]) else
-  let c1 := mkClient true (c_T c) (c_rto c) (c_maxA c) (c_closeConn c) (c_fb c) (c_A c) (c_now c)
-                     (c_fail c) (c_connClosed c) (c_next_inst c) in
+(* Client.Close.  [c_close_core]: what Close does once the closed flag is set — agent.Close (its events
+   reach the handler under the agent's lock, with the handler it had), the connection — without the
+   return. *)
+Definition set_closed (c : client) : client :=
+  mkClient true (c_T c) (c_rto c) (c_maxA c) (c_closeConn c) (c_fb c) (c_A c) (c_now c)
+           (c_fail c) (c_connClosed c) (c_next_inst c).
+Definition c_close_core (fixClose fixBuf : bool) (c1 : client) : client * list obs :=
   let '(A', (_, evs)) := a_step (c_A c1) AClose in
-  (* agent.Close invokes the handler under the agent's lock, with the handler it had *)
   let '(c2, o) := feed fixClose fixBuf (upd_A c1 (c_A c1)) evs (kind_evk []) in
   let c3 := upd_A c2 A' in
   if c_closeConn c3
   then (mkClient true (c_T c3) (c_rto c3) (c_maxA c3) true (c_fb c3) (c_A c3) (c_now c3) (c_fail c3)
-                 (c_connClosed c3 + 1) (c_next_inst c3), o ++ [OConnClose; ORet CNil])
-  else (c3, o ++ [ORet CNil]).
+                 (c_connClosed c3 + 1) (c_next_inst c3), o ++ [OConnClose])
+  else (c3, o).
+Definition c_close (fixClose fixBuf : bool) (c : client) : client * list obs :=
+  if c_closed c then (c, [ORet CClientClosed]) else
+  let '(c', o) := c_close_core fixClose fixBuf (set_closed c) in (c', o ++ [ORet CNil]).
+
+(* Targeted interleavings of Close with an event that is already in flight.
+   [c_tick_race]: the collector goroutine has taken the expired transactions out of the agent (Collect)
+   and is about to call the handler when Close sets the closed flag; Close then waits for the collector
+   (collector.Close), so the in-flight callbacks run on the closed client BEFORE agent.Close.
+   [c_deliver_race]: the reader goroutine has passed agent.Process when Close runs; Close waits for the
+   reader only at the very end (wg.Wait), so the in-flight callback runs AFTER agent.Close and the
+   connection's Close. *)
+Definition c_tick_race (fixClose fixBuf : bool) (c : client) (now : Z) : client * list obs :=
+  let c0 := mkClient (c_closed c) (c_T c) (c_rto c) (c_maxA c) (c_closeConn c) (c_fb c) (c_A c) now
+                     (c_fail c) (c_connClosed c) (c_next_inst c) in
+  if c_closed c0 then (c0, [ORet CClientClosed]) else
+  let '(A', (_, evs)) := a_step (c_A c0) (ACollect now) in
+  let '(c2, o1) := feed fixClose fixBuf (set_closed (upd_A c0 A')) evs (kind_evk []) in
+  let '(c3, o2) := c_close_core fixClose fixBuf c2 in
+  (c3, o1 ++ o2 ++ [ORet CNil]).
+Definition c_deliver_race (fixClose fixBuf : bool) (c : client) (datagram : list byte) (tid_of : list byte -> N)
+  : client * list obs :=
+  if c_closed c then (c, [ORet CClientClosed]) else
+  let d := take 1024 datagram in
+  match decode (set_raw new_msg (slice_of d [])) with
+  | (m, Ok _) =>
+    let id := tid_of (m_tid m) in
+    let '(A', (_, evs)) := a_step (c_A c) (AProcess id) in
+    let '(c2, o1) := c_close_core fixClose fixBuf (set_closed (upd_A c A')) in
+    let '(c3, o2) := feed fixClose fixBuf c2 evs (kind_evk d) in
+    (c3, o1 ++ o2 ++ [ORet CNil])
+  | _ => c_close fixClose fixBuf c                     (* undecodable: nothing in flight *)
+  end.
+
+(* another user of a shared agent registers a transaction the client knows nothing about *)
+Definition FOREIGN_DEADLINE : Z := 4000000000000000000.
+Definition c_foreign (c : client) (id : N) : client :=
+  upd_A c (fst (a_step (c_A c) (AStart id FOREIGN_DEADLINE))).
 
 Definition new_client (rto : Z) (maxA : N) (closeConn : bool) (fb : option N) : client :=
   mkClient false [] rto maxA closeConn fb (new_agent 1) 0 [] 0 0.
@@ -212,7 +254,10 @@ Inductive cop : Type :=
 | CSetNow (now : Z)
 | CSetRTO (r : Z)
 | CFail (insts : list N)
-| CClose.
+| CClose
+| CTickRace (now : Z)
+| CDeliverRace (datagram : list byte)
+| CForeign (id : N).
 
 Definition c_step (fixClose fixBuf : bool) (tid_of : list byte -> N) (c : client) (o : cop) : client * list obs :=
   match o with
@@ -224,6 +269,9 @@ Definition c_step (fixClose fixBuf : bool) (tid_of : list byte -> N) (c : client
   | CSetRTO r => (c_set_rto c r, [])
   | CFail s => (c_fail_next c s, [])
   | CClose => c_close fixClose fixBuf c
+  | CTickRace now => c_tick_race fixClose fixBuf c now
+  | CDeliverRace d => c_deliver_race fixClose fixBuf c d tid_of
+  | CForeign id => (c_foreign c id, [])
   end.
 
 Fixpoint c_run (fixClose fixBuf : bool) (tid_of : list byte -> N) (c : client) (ops : list cop)
